@@ -4,7 +4,7 @@ PROP = {
     "level": "proof",
     "harness_cmd": "c01",
     "run_file": "Run/C01Run.v",
-    "obligation_files": ["Props/C01.v", "Sem/GenBuggyProofs.v", "Sem/GenProofs.v", "Sem/PinnedProofs.v", "Sem/FromText.v", "Syn/Lower.v",
+    "obligation_files": ["Props/C01.v", "Lib/SemLibAgreeProofs.v", "Sem/GenBuggyProofs.v", "Sem/GenProofs.v", "Sem/PinnedProofs.v", "Sem/FromText.v", "Syn/Lower.v",
                          "Syn/TextToAst.v", "Syn/FullProofs.v", "Syn/FullRel.v", "Syn/Full.v", "Run/C01TextRun.v"],
     "harness_timeout": 3000,
     # lists of counts printed by every case file, summed over the shards into coverage.correspondence.coq_counts
@@ -28,7 +28,7 @@ PROP = {
 }
 
 MANIFEST = {
-    "text": "Theorems (Coq, all programs, all fuel, all frames; Props/C01.v): exec_sim - the generator model (Sem/Gen.v: compile-time slot indices, shared value stack with reserved slots for pending arguments, closure contexts) refines the lexically scoped reference semantics (Sem/Ref.v) in lock-step and leaves the caller's frame untouched; C01_from_ast / C01_generated - Generate then Eval equals the reference for every AST that gen_check accepts (plus the decidable side condition side_ok); call_frame_independent; exec_sim_pinned_refuted and C01_pinned_discipline_refuted - the call-site discipline of the pinned commit violates the statement (505 instead of 506 on the probed program); C01_tables_ok - the arity tables of the models agree with the tables regenerated from value.New(). Three-way correspondence on every run: implementation (optimizer on and off) vs generator model on the AST dumped from the REAL parser vs reference semantics on the harness's own unannotated tree, over type-directed programs with binders boosted inside call, method and literal arguments; C01_from_text / C01_from_text_tokens / C01_text_layout_irrelevant - for every well-formed layout of a well-formed program of the full grammar the function generated FROM THE TEXT (tokenizer model, parser model, lowering, generator model) agrees with the reference semantics of its AST, and layout does not matter; the run checks on every generated program that the parser model on the real tokens, lowered, is the AST the real parser built; the run checks gen_check/side_ok on every dumped AST (hypotheses of C01_generated) and that Generate fails exactly when the model says so.",
+    "text": "Theorems (Coq, all programs, all fuel, all frames; Props/C01.v): C01_lib_agrees_with_C07_models - the eager list stages of the pool exec_sim covers (number, compact, combine, combine3, combineN, iir, iirCombine, cross, merge, minMax in Sem/Lib.v) compute exactly what the implementation models of the same Go loops that C07 validates against value/list.go (Lib/Builtins.v, lazy streams) yield when collected, for every way of applying a closure (compact/merge: when the callback does not answer the opaque text of a caught error); exec_sim - the generator model (Sem/Gen.v: compile-time slot indices, shared value stack with reserved slots for pending arguments, closure contexts) refines the lexically scoped reference semantics (Sem/Ref.v) in lock-step and leaves the caller's frame untouched; C01_from_ast / C01_generated - Generate then Eval equals the reference for every AST that gen_check accepts (plus the decidable side condition side_ok); call_frame_independent; exec_sim_pinned_refuted and C01_pinned_discipline_refuted - the call-site discipline of the pinned commit violates the statement (505 instead of 506 on the probed program); C01_tables_ok - the arity tables of the models agree with the tables regenerated from value.New(). Three-way correspondence on every run: implementation (optimizer on and off) vs generator model on the AST dumped from the REAL parser vs reference semantics on the harness's own unannotated tree, over type-directed programs with binders boosted inside call, method and literal arguments; C01_from_text / C01_from_text_tokens / C01_text_layout_irrelevant - for every well-formed layout of a well-formed program of the full grammar the function generated FROM THE TEXT (tokenizer model, parser model, lowering, generator model) agrees with the reference semantics of its AST, and layout does not matter; the run checks on every generated program that the parser model on the real tokens, lowered, is the AST the real parser built; the run checks gen_check/side_ok on every dumped AST (hypotheses of C01_generated) and that Generate fails exactly when the model says so.",
     "design_ref": "DESIGN.md section 6 C01",
     "note": "Text -> AST (T2/T3 of the design): C01_from_text composes the tokenizer model, the full-grammar parser completeness (OuterIdents/Recursive annotations, const-let propagation), Syn/Lower.v and C01_generated; the models are tied to the real tokenizer/parser by the correspondence runs of C15, C03 and the text-to-ast condition of this run. Operators and built-ins (Sem/Ops.v, Sem/Lib.v) are shared by both semantics, their fidelity to the Go code is C07/C14's business and the run's. Trusted: Coq kernel + VM, table hooks, the Go harness (generator, renderer, scope tracking for static calls, canonicalisation).",
     "technique": "Coq model + simulation proof + vm_compute three-way correspondence run (implementation / generator model / reference semantics) + table obligations",
